@@ -168,6 +168,28 @@ func init() {
 			return err
 		}
 		r.Extra["realised_streams"] = count
+		// chunks at the limits of the header's size fields (2 MiB / 2^20+1 uncompressed, 65536 compressed, 65536 raw)
+		bs, err := boundarySpecs(rng, d.Ask)
+		if err != nil {
+			return err
+		}
+		for _, b := range bs {
+			rep, err := d.Ask("lzma2build 2097152 " + strings.Join(b.specs, " ") + " eos/-/-")
+			if err != nil {
+				return err
+			}
+			if rep == "bad-op" {
+				return fmt.Errorf("lzma2build rejected %s", b.name)
+			}
+			stream := unhxe(rep)
+			g2 := goLzma2Read(stream, 1<<21, 60*time.Second)
+			r.Count("stream:"+b.name, true)
+			if g2.Err != "EOF" || !bytes.Equal(g2.Out, b.content) {
+				cs := rdCase{Op: "read-chunk-sequence", Kind: "lzma2", Name: b.name, Stream: hxe(stream), DictCap: 1 << 21}
+				r.Violate("counterexample", "legal chunk sequence misread: "+b.name, cs,
+					fmt.Sprintf("chunk at a size-field limit: expected %d bytes and a clean end, got %d bytes, %s %s", len(b.content), len(g2.Out), g2.Err, g2.Msg))
+			}
+		}
 		return nil
 	}
 }
